@@ -67,8 +67,8 @@ CLAIMS = {
         "for graphic, cographic, network, conetwork and for step lists without pivots; C10GraphicSums: graphic and network matrices are closed "
         "under 1-sums (iff) and 2-sums in both layouts; C10SPSums: the same for binary and ternary series-parallel matrices; C10SPPivot: series-parallelness is invariant under GF(2) "
         "resp. GF(3) pivots of 0/1 resp. ternary matrices; C10GraphicPivot: graphic matrices are invariant under GF(2) pivots, network matrices "
-        "under GF(3) pivots. Not proved, classical matroid theory trusted: pivot invariance for cographic/conetwork, delta/Y/3-sum closure of "
-        "regularity (Seymour). Tie: instances "
+        "under GF(3) pivots, C10CographicPivot: likewise cographic and conetwork matrices (transpose law of pivots). Not proved, classical "
+        "matroid theory trusted: delta/Y/3-sum closure of regularity (Seymour). Tie: instances "
         "far beyond oracle size (network matrices of random digraphs, R10/R12, 1-/2-sums, corrupted entries; up to ~100 lines quick, ~160 "
         "thorough) with seeded composite transformations applied through CMRchrmatTranspose/Permute/Slice/BinaryPivot/TernaryPivot: the "
         "transformed matrix must equal the model's and all ten recognizers' verdicts on M and g(M) must satisfy the table; k-sums composed by "
